@@ -38,7 +38,8 @@ type Obs struct {
 	Ident    Ident
 	Entries  []*Entry
 	Foreign  bool
-	Typed    bool // resolved through the generic helpers
+	Typed    bool  // resolved through the generic helpers
+	RawGroup []any // the very slice Provider.GetGroup returned (kept to see whether godi touches it again later)
 	Err      error
 	Panic    any
 	StartSeq int64
@@ -269,6 +270,7 @@ func (r *Runner) Resolve(tag int, id Ident) *Obs {
 			vs, err := p.GetGroup(rt, id.Group)
 			o.Err = err
 			if err == nil {
+				o.RawGroup = vs
 				for _, v := range vs {
 					toEntry(v)
 				}
@@ -425,4 +427,12 @@ func isNilValue(v any) bool {
 		return rv.IsNil()
 	}
 	return false
+}
+
+// EntryOf returns the ledger entry behind a resolved value (nil for foreign or nil values).
+func EntryOf(v any) *Entry {
+	if s, ok := v.(Svc); ok && s != nil && !isNilValue(v) {
+		return s.Ent()
+	}
+	return nil
 }
